@@ -390,6 +390,10 @@ def roundtrip(ctx, x, s, w, nf, arrays=True):
             _try(lambda: mk().set_val(fresh(r), raw=raw))
             if not raw:
                 _try(lambda: mk()(fresh(r)))
+        if rb is not None:
+            # binary strings carrying any of the selectable prefixes also through from_bin (method and function)
+            _try(lambda: mk().from_bin(fresh(rb), raw=raw))
+            _try(lambda: fm.from_bin(fresh(rb), signed=s, n_word=w, n_frac=nf, raw=raw))
     if bd is not None and 0 < nf < w and w <= 53:
         r = normalise(bd)
         pre = ('0b' + r) if isinstance(r, str) else None
